@@ -6,7 +6,12 @@ Tie (re-run on every check):
     validate_trailers and Python's int(bytes);
   * suite `stream`: op-sequence correspondence of the content-length bookkeeping model against a real H3Connection
     (stub QuicConnection, HEADERS blocks encoded by a real pylsqpack encoder, DATA frames cut at chosen points);
-  * suite `e2e`: single HEADERS / trailers / PUSH_PROMISE frames through a real H3Connection, model = validators.
+  * suite `e2e`: single HEADERS / trailers / PUSH_PROMISE frames through a real H3Connection, model = validators;
+  * suite `events`: whole connections (several streams, random chunking, QPACK encoder stream before / after the
+    message streams = BLOCKED / RESUME schedules, local end of stream, mutated header lists and bodies) through the
+    composed model coq/model/H3Events.v (exec_h3events: C14's receive path H3Parse.v with the real Gallina validators
+    plugged in; only QPACK's answers are recorded from the real pylsqpack) against a real H3Connection, every event
+    and close code compared.
 Every suite also runs the *implementation oracle*: the property's rules coded directly in Python (independent of the
 model) on the implementation's observable behaviour (return / exception class / events / close code)."""
 import itertools
@@ -14,7 +19,9 @@ import json
 
 from vlib import core, corr
 
-DEPENDS = ["C15Tables (generated)", "H3Validate", "H3ValidateSpec", "H3ValidateProofs", "H3StreamProofs", "Base", "Tok", "C15"]
+DEPENDS = ["C15Tables (generated)", "H3Validate", "H3ValidateSpec", "H3ValidateProofs", "H3StreamProofs", "Base", "Tok", "C15",
+           "H3Parse (C14's model, read-only)", "H3Events", "H3EventsSpec", "H3EventsProofs", "H3EventsLoop", "H3EventsConn", "H3EventsThm",
+           "harness/props/h3common.py (C14/C16: stub transport, recording QPACK proxies, generators)"]
 TRUSTED_BASE = [
     "extraction (ExtrOcamlBasic only; Z kept as the extracted inductive) + coq/extract/driver.ml for running the model",
     "tools/gen/c15_tables.py (Python ast -> coq/gen/C15Tables.v: constants, per-character predicates, pseudo-header tables, "
@@ -22,12 +29,18 @@ TRUSTED_BASE = [
     "correspondence harness harness/props/c15.py + harness/vlib/corr.py (decides what 'agree' means)",
     "modelled, not verified: validate_headers control flow, CPython 3.12 int(bytes) grammar incl. the 4300-digit limit, "
     "the DATA/HEADERS content-length bookkeeping of _receive_request_or_push_data restricted to whole HEADERS frames and "
-    "DATA frames cut inside the payload; QPACK (pylsqpack) and the frame parser are outside the model (C14)",
+    "DATA frames cut inside the payload (H3Validate's stream model); the full frame parser, stream table and resume pass are "
+    "C14's hand-written model coq/model/H3Parse.v, tied to the code by correspondence runs (suite events here, C14's suites)",
+    "QPACK (pylsqpack) is an oracle in the composed model: any header list / blocked / failed for any bytes; the events "
+    "theorems hold for every such oracle",
 ]
 ASSUMPTIONS = [
     "header lists reaching the validators are lists of (bytes, bytes) pairs (what pylsqpack's decoder returns)",
     "sys.get_int_max_str_digits() is the default 4300",
-    "stream theorem: QUIC events carry whole HEADERS frames; DATA frames may be cut anywhere inside the payload; no QPACK blocking",
+    "content_length_matches (H3Validate stream model): QUIC events carry whole HEADERS frames; DATA frames may be cut anywhere inside the payload; no QPACK blocking",
+    "events_* theorems (composed model): trace_ok = QUIC delivers no stream data after a stream's FIN and the application ends "
+    "the sending side of a stream at most once; fx_pushblock = the tree has fix c68d1c5 (a blocked PUSH_PROMISE is resumed as "
+    "a PUSH_PROMISE); every other fix flag, every byte string, chunking, interleaving and QPACK answer is arbitrary",
 ]
 
 H3_MESSAGE_ERROR = 0x10E
@@ -897,6 +910,287 @@ def e_cases(vcases, keep):
     return [{"ops": ops[i:i + 16]} for i in range(0, len(ops), 16)]
 
 
+# ------------------------------------------------------------------ suite `events`: the composed model (H3Events.v)
+# exec_h3events = H3Parse's receive path with the REAL Gallina validators plugged in; QPACK answers are recorded
+# from the real pylsqpack decoder per handle_event call (h3common), header ids are resolved through a table.
+_EVCACHE = {}
+
+
+def _ev_run(case):
+    from props import h3common as hc
+    k = json.dumps(case, sort_keys=True)
+    r = _EVCACHE.get(k)
+    if r is None:
+        if len(_EVCACHE) > 5000:
+            _EVCACHE.clear()
+        r = _EVCACHE[k] = hc.run_impl(case)
+    return r
+
+
+def ev_impl(case):
+    return _ev_run(case).out
+
+
+def ev_encode(case):
+    from props import h3common as hc
+    fixes, _ = hc.detect()
+    r = _ev_run(case)
+    t = hc.encode_case(case, r.tables, fixes)
+    items = sorted(r.rec.hids.items(), key=lambda kv: kv[1])
+    tab = [len(items)]
+    for hs, hid in items:
+        tab += [hid, len(hs)]
+        for k, v in hs:
+            tab += [len(k)] + list(k) + [len(v)] + list(v)
+    return t[:8] + tab + t[8:]
+
+
+EV_STATS = {"blocked_calls": 0, "resumed_calls": 0, "closed_message_error": 0, "closed_frame_unexpected": 0,
+            "closed_other": 0, "end_events": 0, "end_events_with_declared_length": 0, "headers_events": 0,
+            "push_promise_events": 0, "end_after_resume": 0}
+
+
+def ev_oracle(case):
+    """The property sentence over everything a real H3Connection hands to the application for a whole connection
+    (any streams, chunking, interleaving with the QPACK encoder stream); no model involved."""
+    from aioquic.h3 import events as E
+    r = _ev_run(case)
+    client = case["client"]
+    first_kind = 1 if client else 0
+    per = {}
+    for evs in r.events:
+        for e in evs:
+            if isinstance(e, (E.DatagramReceived, E.WebTransportStreamDataReceived)):
+                continue
+            st = per.setdefault(e.stream_id, {"n": 0, "declared": None, "body": 0, "ended": 0})
+            if isinstance(e, E.HeadersReceived):
+                hs = [tuple(h) for h in e.headers]
+                if st["n"] >= 2:
+                    return ("stream %d: a third HeadersReceived" % e.stream_id, {"site": "h3-event", "suite": "events", "rule": "headers-after-trailers"})
+                kind = first_kind if st["n"] == 0 else 3
+                st["n"] += 1
+                b = rule_broken(kind, hs)
+                if b:
+                    return ("stream %d: HeadersReceived (%s) breaks rule '%s': %r" % (e.stream_id, KINDS[kind], b, hs),
+                            {"site": "h3-event", "suite": "events", "rule": b, "kind": KINDS[kind]})
+                if kind != 3:
+                    d = declared_content_length(hs)
+                    if d == "conflicting":
+                        return ("stream %d: HeadersReceived with conflicting content-length" % e.stream_id,
+                                {"site": "h3-event", "suite": "events", "rule": "content-length-conflicting"})
+                    if d == "invalid":
+                        return ("stream %d: HeadersReceived with an unparsable content-length" % e.stream_id,
+                                {"site": "h3-event", "suite": "events", "rule": "content-length-syntax"})
+                    st["declared"] = d
+            elif isinstance(e, E.PushPromiseReceived):
+                hs = [tuple(h) for h in e.headers]
+                b = rule_broken(2, hs)
+                if b or not client:
+                    return ("stream %d: PushPromiseReceived breaks rule '%s': %r" % (e.stream_id, b, hs),
+                            {"site": "h3-event", "suite": "events", "rule": b or "push-promise-at-server", "kind": "push_promise"})
+            elif isinstance(e, E.DataReceived):
+                if e.data and st["n"] != 1:
+                    return ("stream %d: %d body bytes delivered %s" % (e.stream_id, len(e.data),
+                                                                      "before the headers" if st["n"] == 0 else "after the trailers"),
+                            {"site": "h3-event", "suite": "events", "rule": "data-out-of-order"})
+                st["body"] += len(e.data)
+            if getattr(e, "stream_ended", False):
+                st["ended"] += 1
+                if isinstance(st["declared"], int) and st["declared"] != st["body"]:
+                    return ("stream %d: stream_ended event with declared content-length %d but %d body bytes delivered"
+                            % (e.stream_id, st["declared"], st["body"]), {"site": "h3-event", "suite": "events", "rule": "content-length-mismatch"})
+    if r.after_close_events:
+        return ("events returned together with / after a connection close", {"site": "h3-event", "suite": "events", "rule": "event-and-close"})
+    return None
+
+
+def ev_tally(case):
+    from aioquic.h3 import events as E
+    r = _ev_run(case)
+    EV_STATS["blocked_calls"] += r.blocked_calls
+    EV_STATS["resumed_calls"] += r.resumed_calls
+    for c in r.closes:
+        EV_STATS["closed_message_error" if int(c) == H3_MESSAGE_ERROR else
+                 "closed_frame_unexpected" if int(c) == 0x105 else "closed_other"] += 1
+    declared = {}
+    for evs in r.events:
+        for e in evs:
+            if isinstance(e, E.HeadersReceived):
+                EV_STATS["headers_events"] += 1
+                if e.stream_id not in declared:
+                    declared[e.stream_id] = declared_content_length([tuple(h) for h in e.headers])
+            elif isinstance(e, E.PushPromiseReceived):
+                EV_STATS["push_promise_events"] += 1
+            if getattr(e, "stream_ended", False) and not isinstance(e, E.WebTransportStreamDataReceived):
+                EV_STATS["end_events"] += 1
+                if isinstance(declared.get(e.stream_id), int):
+                    EV_STATS["end_events_with_declared_length"] += 1
+                if r.resumed_calls:
+                    EV_STATS["end_after_resume"] += 1
+
+
+EV_CL = [None, b"0", b"3", b"5", b"03", b"+3", b"1_0", b"7"]
+
+
+def _mutate_headers(rng, hs):
+    hs = list(hs)
+    r = rng.random()
+    if r < 0.2 and hs:
+        i = rng.randrange(len(hs))
+        hs[i] = (hs[i][0], hs[i][1] + rng.choice([b" ", b"\t", b"\r", b"\x00", b"\n"]))
+    elif r < 0.4 and hs:
+        i = rng.randrange(len(hs))
+        hs[i] = (hs[i][0][:1] + rng.choice([b"A", b" ", b"\x7f", b"\x80", b":"]) + hs[i][0][1:], hs[i][1])
+    elif r < 0.55 and hs:
+        hs.append(hs[rng.randrange(len(hs))])                      # duplicate (pseudo-header after regular / repeated)
+    elif r < 0.7 and hs:
+        del hs[rng.randrange(len(hs))]
+    elif r < 0.85:
+        hs.insert(rng.randint(0, len(hs)), rng.choice([(b":status", b"200"), (b":method", b"GET"), (b":path", b"/"),
+                                                       (b":bogus", b"1"), (b"content-length", b"4"), (b"content-length", b"-1"),
+                                                       (b"transfer-encoding", b"chunked"), (b"te", b"trailers")]))
+    else:
+        rng.shuffle(hs)
+    return hs
+
+
+def gen_blocked_cl_case(rng):
+    """Message streams whose HEADERS (and trailers) blocks refer to dynamic-table entries that arrive later on the
+    QPACK encoder stream, with a content-length that matches the body or not, FIN before or after the unblocking, the
+    local side ended or not, 1-3 streams: the BLOCKED / RESUME path of the receive code."""
+    from props import h3common as hc
+    client = rng.random() < 0.5
+    wire = hc.Wire(True)
+    marker = (b"x-k%d" % rng.randint(0, 9), b"w" * rng.randint(20, 40))
+    tmark = (b"x-t%d" % rng.randint(0, 9), b"v" * rng.randint(20, 40))
+    nstreams = rng.choice([1, 1, 1, 2, 3])
+    plans = []
+    for i in range(nstreams):
+        base = [(b":status", rng.choice([b"200", b"404"]))] if client else list(hc.REQ)
+        cl = rng.choice(EV_CL)
+        # without the marker the message headers decode at once and only the trailers have to wait
+        hs = base + ([(b"content-length", cl)] if cl is not None else []) + ([marker] if rng.random() < 0.7 else [])
+        if rng.random() < 0.15:
+            hs.insert(len(base), (b"content-length", rng.choice(EV_CL[1:])))
+        if rng.random() < 0.2:
+            hs = _mutate_headers(rng, hs)
+        plans.append(hs)
+    wire.block(400, [marker])                      # first sighting; the second one is inserted and referenced
+    wire.block(400, [tmark])
+    per, sids = {}, []
+    for i, hs in enumerate(plans):
+        sid = hc.request_sid(i)
+        sids.append(sid)
+        try:
+            body = hc.frame(1, wire.block(sid, hs))
+        except ValueError:
+            body = hc.frame(1, wire.block(sid, [(b":status", b"200"), marker] if client else list(hc.REQ) + [marker]))
+        if client and rng.random() < 0.35:
+            # a PUSH_PROMISE whose block has to wait (resumed with frame_data=None when it is the first waiting frame of
+            # the stream: in front of the response, or behind headers that decode at once), well formed or mutated
+            ph = list(hc.REQ) + [marker]
+            if rng.random() < 0.4:
+                ph = _mutate_headers(rng, ph)
+            try:
+                pp = hc.frame(5, hc.uvar(rng.randint(0, 7)) + wire.block(sid, ph))
+                body = pp + body if rng.random() < 0.5 else body + pp
+            except ValueError:
+                pass
+        r = rng.random()
+        if r < 0.65:
+            n = rng.choice([0, 3, 3, 5, 10])
+            data = bytes(rng.randrange(256) for _ in range(n))
+            if rng.random() < 0.3 and n > 1:
+                k = rng.randint(1, n - 1)
+                body += hc.frame(0, data[:k]) + hc.frame(0, data[k:])
+            else:
+                body += hc.frame(0, data)
+        if rng.random() < 0.4:
+            tr = [tmark] if rng.random() < 0.8 else _mutate_headers(rng, [tmark, (b"x-a", b"1")])
+            try:
+                body += hc.frame(1, wire.block(sid, tr))
+            except ValueError:
+                pass
+        if rng.random() < 0.1:
+            body += hc.frame(0x21, b"")
+        fin = rng.random() < 0.9
+        per[sid] = hc.split_random(rng, body, fin, maxchunks=3) if rng.random() < 0.5 else [[body, fin]]
+    ctrl, enc = hc.peer_uni(client, 0), hc.peer_uni(client, 1)
+    ops = [["s", ctrl, hc.control_prefix().hex(), 0]] if rng.random() < 0.7 else []
+    encdata = hc.uvar(2) + wire.enc_stream
+    if rng.random() < 0.2:                         # encoder stream first: nothing waits
+        ops.append(["s", enc, encdata.hex(), 0])
+        encdata = b""
+    ops += hc.interleave(rng, per)
+    for sid in sids:
+        if rng.random() < 0.6:
+            ops.insert(rng.randint(0, len(ops)), ["f", sid])
+    if encdata:
+        for d, _f in hc.split_random(rng, encdata, False, maxchunks=3):
+            ops.append(["s", enc, bytes(d).hex(), 0])
+    for sid in sids:                               # FINs that come after the unblocking
+        if not any(op[0] == "s" and op[1] == sid and op[3] for op in ops) and rng.random() < 0.7:
+            ops.append(["s", sid, "", 1])
+    return {"client": client, "dgram": True, "ops": ops}
+
+
+def ev_cases_from_lists(rng, vcases, limit):
+    """The header lists of the validate suite (grammar + one mutation, boundary bytes) inside a whole message:
+    HEADERS / trailers / PUSH_PROMISE frame from a real encoder, body, FIN, random chunking."""
+    from props import h3common as hc
+    out = []
+    for c in vcases:
+        for op in c["ops"]:
+            if op[0] != "v" or len(out) >= limit:
+                continue
+            kind, hs = op[1], unhdrs(op[2])
+            if len(hs) > 8 or any(len(k) + len(v) > 80 or not k for k, v in hs):
+                continue
+            client = kind in (1, 2) or (kind == 3 and rng.random() < 0.5)
+            wire = hc.Wire(False)
+            try:
+                if kind in (0, 1):
+                    data = hc.frame(1, wire.block(0, hs))
+                elif kind == 3:
+                    data = hc.frame(1, wire.block(0, BASE[1 if client else 0])) + hc.frame(0, b"abc") + hc.frame(1, wire.block(0, hs))
+                else:
+                    data = hc.frame(1, wire.block(0, BASE[1])) + hc.frame(5, hc.uvar(rng.randint(0, 7)) + wire.block(0, hs))
+            except ValueError:
+                continue
+            if kind != 3 and rng.random() < 0.7:
+                data += hc.frame(0, bytes(rng.randrange(256) for _ in range(rng.choice([0, 3, 5]))))
+            fin = rng.random() < 0.8
+            chunks = hc.split_random(rng, data, fin, maxchunks=3) if rng.random() < 0.4 else [[data, fin]]
+            ops = [["s", 0, bytes(d).hex(), int(f)] for d, f in chunks]
+            if rng.random() < 0.3:
+                ops.insert(rng.randint(0, len(ops)), ["f", 0])
+            out.append({"client": client, "dgram": True, "ops": ops})
+    return out
+
+
+def events_suite(ctx):
+    from props import h3common as hc
+    return corr.Suite(ctx, "events", "exec_h3events", ev_encode, ev_impl, ev_oracle,
+                      ops=lambda c: c["ops"], rebuild=lambda c, ops: dict(c, ops=ops),
+                      nontrivial=lambda c, out: len(c["ops"]) >= 2 and len(out) > 8,
+                      opname=lambda o: o[0] + ("+fin" if o[0] == "s" and o[3] else ""),
+                      simplify=hc.simplify_op)
+
+
+def end_marker_witness():
+    """Replay of theorem end_marker_without_headers on the real H3Connection: a request stream that consists of a
+    FIN only is reported as DataReceived(b"", stream_ended=True) with no HeadersReceived (recorded, not a violation
+    of the property sentence: no header block, no body bytes)."""
+    from aioquic.h3 import events as E
+    r = _ev_run({"client": False, "dgram": True, "ops": [["s", 0, "", 1]]})
+    evs = [e for l in r.events for e in l]
+    return {"input": "server, stream 0: b'' + FIN",
+            "events": [type(e).__name__ + ("(data=%r, stream_ended=%r)" % (e.data, e.stream_ended) if isinstance(e, E.DataReceived) else "")
+                       for e in evs],
+            "closes": [int(c) for c in r.closes],
+            "as_in_model": len(evs) == 1 and isinstance(evs[0], E.DataReceived) and evs[0].data == b"" and evs[0].stream_ended}
+
+
 # ------------------------------------------------------------------ driver
 def _ops(c):
     return c["ops"]
@@ -1025,8 +1319,22 @@ def run(ctx):
             keep.append({"ops": ops})
     run_chunked(e, keep, 400)
     vm_checked = vm_crosscheck(ctx, v, rnd) if ctx.thorough else 0
+    # whole connections through the composed model (real validators inside H3Parse's receive path), last: h3common
+    # wraps the validators of aioquic.h3.connection to record their answers
+    from props import h3common as hc
+    ev = events_suite(ctx)
+    ev.run(corr.load_corpus("C15", "events"), "corpus")
+    evc = [gen_blocked_cl_case(rng) for _ in range(ctx.n(1500, 20000))]
+    evc += [hc.gen_blocked_closed_case(rng) for _ in range(ctx.n(200, 3000))]
+    evc += [hc.gen_connection_case(rng, malformed=0.3 if i % 3 == 0 else 0.0)[0] for i in range(ctx.n(600, 8000))]
+    evc += ev_cases_from_lists(rng, rnd + pseudo[::11] + chars[::11], ctx.n(1500, 20000))
+    run_chunked(ev, evc, 500)
+    for c in evc:
+        ev_tally(c)
+    _EVCACHE.clear()
+    witness = end_marker_witness()
     return corr.merge_coverage(
-        [v, s, e],
+        [v, s, e, ev],
         "validators: every name/value of length <= 3 over the 13-byte boundary alphabet + all 256 bytes in first/middle/last "
         "position, alone and inside header lists of all four kinds; all sequences of pseudo/regular header atoms up to length "
         "4 (10 atoms) and 5 (6 atoms) [thorough: 5 over 10 atoms] per kind; scheme/authority/path and transfer-encoding "
@@ -1034,8 +1342,13 @@ def run(ctx):
         "as header; random mostly-valid lists with one mutation, pool lists and random bytes. stream: content-length spelling "
         "x body size x DATA frame splits x FIN placement (exhaustive small scope) + random histories. e2e: the same header "
         "lists as single HEADERS/trailers/PUSH_PROMISE frames through a real H3Connection with pylsqpack-encoded blocks. "
+        "events: whole connections (1-3 message streams, control / QPACK streams, push and WebTransport streams, random "
+        "chunking and interleaving, encoder stream before or after the blocks that need it, FIN before / after the unblocking, "
+        "local end of stream, content-length spellings x body sizes, mutated header lists, the validate suite's lists as "
+        "HEADERS / trailers / PUSH_PROMISE inside a message) through exec_h3events vs a real H3Connection. "
         "distinct = distinct token encoding; non-trivial = validates at least one header / delivers at least one event",
-        {"exhaustive_small_scope": True, "extraction_vs_vm_compute_cases": vm_checked, "qpack_unencodable_skipped": {"stream_cases": skipped, "e2e_ops": skipped_e}})
+        {"exhaustive_small_scope": True, "extraction_vs_vm_compute_cases": vm_checked, "qpack_unencodable_skipped": {"stream_cases": skipped, "e2e_ops": skipped_e},
+         "events_suite": dict(EV_STATS), "end_marker_without_headers_replay": witness})
 
 
 def vm_crosscheck(ctx, suite, cases, n=300):
@@ -1059,7 +1372,7 @@ def replay(ctx, rep):
     v, s, e = suites(ctx)
     case = rep["case"]
     res = {}
-    for su in (v, s, e):
+    for su in (v, s, e, events_suite(ctx)):
         try:
             d, ex, g = su.disagree(case)
             res[su.name] = {"disagree": d, "impl": ex, "model": g, "oracle": su.oracle(case)}
